@@ -71,7 +71,25 @@ func passConst(p *Program) (pass int64, all map[int64]bool, cb *ssa.Function, ok
 		return 0, nil, nil, false
 	}
 	all = map[int64]bool{}
-	for _, cl := range append([]*ssa.Function{run}, Closures(run)...) {
+	// candidates: RunExpr, its closures, and the functions of the package they call statically (a classifier
+	// extracted into a named helper)
+	cands := append([]*ssa.Function{run}, Closures(run)...)
+	seen := map[*ssa.Function]bool{}
+	for _, c := range cands {
+		seen[c] = true
+	}
+	for i := 0; i < len(cands); i++ {
+		ForEachInstr(cands[i], func(ins ssa.Instruction) {
+			if c, isCall := ins.(*ssa.Call); isCall {
+				if f := c.Call.StaticCallee(); f != nil && f != ilt && !seen[f] && f.Pkg != nil && f.Pkg == run.Pkg && f.Blocks != nil {
+					seen[f] = true
+					cands = append(cands, f)
+					cands = append(cands, Closures(f)...)
+				}
+			}
+		})
+	}
+	for _, cl := range cands {
 		var tcall *ssa.Call
 		ForEachInstr(cl, func(ins ssa.Instruction) {
 			if c, isCall := ins.(*ssa.Call); isCall && c.Call.StaticCallee() == ilt {
@@ -384,10 +402,34 @@ func rulePassByTypeOnly(p *Program, r *Report) {
 	})
 	// a composite literal's zero value: Outcome defaults to the constant 0; if the pass constant is 0 an unset outcome passes
 	r.Check(pass != 0, "pass-nonzero", "the passing outcome is not the zero value of Outcome", "the passing outcome is the zero value of type Outcome: a Result whose Outcome is never set counts as passed", cb.Pos())
-	// exactly one append per leaf: the append is executed on every path (post-dominates entry) and is not in a loop
-	pd := NewPostDom(cb)
+	// exactly one append per leaf: in the closure RunExpr hands to the leaf walk, the append is executed on every
+	// path (post-dominates entry), is not in a loop, and appends the classifier's result
+	run := p.Func(testPkg, "RunExpr")
+	var leafCb *ssa.Function
+	for _, cl := range Closures(run) {
+		has := false
+		ForEachInstr(cl, func(ins ssa.Instruction) {
+			if c, isCall := ins.(*ssa.Call); isCall {
+				if b, isB := c.Call.Value.(*ssa.Builtin); isB && b.Name() == "append" {
+					has = true
+				}
+			}
+		})
+		if has {
+			if leafCb != nil {
+				r.Viol("one-append", "more than one closure of RunExpr appends results", cl.Pos())
+			}
+			leafCb = cl
+		}
+	}
+	if leafCb == nil {
+		r.Undecided("leaf-callback", "no closure of RunExpr appends a result", run.Pos())
+		return
+	}
+	r.Fn(FnName(leafCb))
+	pd := NewPostDom(leafCb)
 	nApp := 0
-	ForEachInstr(cb, func(ins ssa.Instruction) {
+	ForEachInstr(leafCb, func(ins ssa.Instruction) {
 		c, isCall := ins.(*ssa.Call)
 		if !isCall {
 			return
@@ -397,10 +439,17 @@ func rulePassByTypeOnly(p *Program, r *Report) {
 		}
 		nApp++
 		inLoop := Reaches(ins.Block(), ins.Block(), false)
-		r.Check(pd.PostDominates(ins.Block(), cb.Blocks[0]) && !inLoop, "one-result-per-leaf", "the result is appended on every path, once", "the leaf callback does not append its result on every path exactly once: a leaf can go unreported or be reported twice", c.Pos())
+		r.Check(pd.PostDominates(ins.Block(), leafCb.Blocks[0]) && !inLoop, "one-result-per-leaf", "the result is appended on every path, once", "the leaf callback does not append its result on every path exactly once: a leaf can go unreported or be reported twice", c.Pos())
+		if cb != leafCb {
+			fromCls := len(c.Call.Args) == 2 && DependsOn(c.Call.Args[1], func(x ssa.Value) bool {
+				cc, isC := x.(*ssa.Call)
+				return isC && cc.Call.StaticCallee() == cb
+			})
+			r.Check(fromCls, "appends-classified", "the appended result comes from "+cb.Name(), "the leaf callback appends a result that does not come from the classifier "+cb.Name(), c.Pos())
+		}
 	})
 	if nApp != 1 {
-		r.Viol("one-append", fmt.Sprintf("the leaf callback has %d append sites (expected 1)", nApp), cb.Pos())
+		r.Viol("one-append", fmt.Sprintf("the leaf callback has %d append sites (expected 1)", nApp), leafCb.Pos())
 	}
 }
 
